@@ -363,7 +363,15 @@ def _strip_dt(t):
     return t
 
 
+def child_case(ctx, rng, k):
+    run_case(ctx, rng)
+
+
 def run_shard(ctx):
+    if ctx.shard == 1 % ctx.nshards:
+        # a slice again in an interpreter started with -O: rejecting a statement / refusing a poisoned stream must not hinge on an assert
+        from .. import childopt
+        childopt.run(ctx, ID, 150 if ctx.tier == "quick" else 1500)
     i = 0
     while not ctx.out_of_time():
         run_case(ctx, ctx.rng(i))
